@@ -42,7 +42,9 @@ def dur(ns):
     """(yaml text, ns)"""
     if ns % 10**9 == 0:
         return "%ds" % (ns // 10**9)
-    return "%dms" % (ns // 10**6)
+    if ns % 10**6 == 0:
+        return "%dms" % (ns // 10**6)
+    return "%dns" % ns
 
 
 # ---------------------------------------------------------------- AST constructors
